@@ -186,6 +186,53 @@ def pmap(fn, items, nproc: int | None = None, chunksize: int = 1):
     return out
 
 
+def pmap_until(fn, items, deadline: float | None, nproc: int | None = None, chunksize: int = 1):
+    """Like pmap, but gives up at the wall-clock `deadline` (time.time() value): returns (results, timed_out) where
+    results[i] is None for items that were not finished. Used as a safety net only: a timed-out exploration is
+    never reported as exhaustive."""
+    items = list(items)
+    if deadline is None:
+        return pmap(fn, items, nproc, chunksize), False
+    nproc = min(nproc or NPROC, max(1, len(items)))
+    out = [None] * len(items)
+    if nproc <= 1 or os.environ.get("VERIF_SERIAL"):
+        for i, it in enumerate(items):
+            if time.time() > deadline:
+                return out, True
+            tag, r = _worker((fn, it))
+            if tag != "ok":
+                raise HarnessError(r)
+            out[i] = r
+        return out, False
+    ctx = multiprocessing.get_context("fork")
+    pool = ctx.Pool(nproc)
+    timed_out = False
+    chunks = [(fn, items[i:i + chunksize]) for i in range(0, len(items), chunksize)]
+    try:
+        it = pool.imap(_chunk_worker, chunks)
+        pos = 0
+        for _, chunk in chunks:
+            try:
+                res = it.next(timeout=max(0.1, deadline - time.time()))
+            except multiprocessing.TimeoutError:
+                timed_out = True
+                break
+            for tag, r in res:
+                if tag != "ok":
+                    raise HarnessError(r)
+                out[pos] = r
+                pos += 1
+    finally:
+        pool.terminate()
+        pool.join()
+    return out, timed_out
+
+
+def _chunk_worker(args):
+    fn, chunk = args
+    return [_worker((fn, it)) for it in chunk]
+
+
 def shuffled(items, salt: str = ""):
     """Seed-dependent permutation of the exploration order (coverage is unchanged)."""
     items = list(items)
